@@ -87,8 +87,26 @@ def _canon(o, fn_names, _seen, budget):
 
 
 def digest(o) -> str:
-    s = json.dumps(o, sort_keys=False, ensure_ascii=True, separators=(',', ':'), default=str)
-    return hashlib.sha256(s.encode()).hexdigest()[:16]
+    try:
+        s = json.dumps(o, sort_keys=False, ensure_ascii=True, separators=(',', ':'), default=str)
+        return hashlib.sha256(s.encode()).hexdigest()[:16]
+    except RecursionError:
+        # nested hundreds of levels deep (a reduce that wraps its accumulator once per element): hash it without recursion
+        h = hashlib.sha256()
+        stack = [o]
+        while stack:
+            x = stack.pop()
+            if isinstance(x, (list, tuple)):
+                h.update(b'[%d' % len(x))
+                stack.extend(reversed(x))
+            elif isinstance(x, dict):
+                h.update(b'{%d' % len(x))
+                for k, v in reversed(list(x.items())):
+                    stack.append(v)
+                    stack.append(str(k))
+            else:
+                h.update(repr(x).encode('utf-8', 'backslashreplace'))
+        return 'deep' + h.hexdigest()[:12]
 
 
 def cdigest(o, fn_names=None) -> str:
